@@ -451,11 +451,24 @@ def judgeHist (lhs rhs : Tok) : String :=
   | _, [["parse-error", m]] => s!"OK hist-skipped-unparsable-definition-{m.take 30}"
   | _, _ => s!"DIFF hist-bad malformed-answer {" ".intercalate (rhs.take 3)}"
 
+/-! ## `cc` lines: goroutines sharing one pool of transformers and transformers built from the same SRs
+(harness/cmd/c10/cc.go).  The verdict is the Spec's "same result for the same input as a freshly built
+transformer" on every concurrent answer; the model is not consulted (its interleaving is at call granularity,
+`C10_pure_states`; `C10_datum_never_written` is the single-call invariant behind it). -/
+def judgeCC (rhs : Tok) : String :=
+  match rhs with
+  | ["cc", "ok", n] => if n == "0" then "OK cc-nocalls" else "OK cc-pool"
+  | "cc" :: "diff" :: rest =>
+    s!"SPEC cc-pool concurrent-call-differs-from-fresh-transformer {" ".intercalate rest}"
+  | ["parse-error", m] => s!"OK cc-skipped-unparsable-definition-{m.take 30}"
+  | _ => s!"DIFF cc-bad malformed-answer {" ".intercalate (rhs.take 3)}"
+
 def judgeLine (line : String) : String :=
   let (lhs, rhs) := splitArrow (tokens line)
   match lhs with
   | "gt" :: kind :: gt => judgeGT kind gt rhs
   | "h" :: rest => judgeHist ("h" :: rest) rhs
+  | "cc" :: _ => judgeCC rhs
   | _ => "DIFF bad unknown-line-kind"
 
 end GeomV.C10
